@@ -55,7 +55,7 @@ theorem sliceable_needed :
     let a : Arr := .struct 2 none (.cons ⟨"c", false, []⟩ (.struct 1 none .nil) .nil)
     sliceable a = false ∧ 0 + 2 ≤ lenOf a ∧ decodeAt (sliceView a 0 2) 1 ≠ decodeAt a (0 + 1) := by decide
 
-/-- `sliceable` is implied by Arrow validity as spelled out for C03 (`Spec.WFS`, which C03 `C03_wf` proves of every array
+/-- `sliceable` is implied by Arrow validity as spelled out for C03 (`Spec.WFS`, which C03 `C03_wfS` proves of every array
 the crate's builders return): every such array may be sliced with any window inside its bounds -/
 theorem WF_sliceable (f : Field) (a : Arr) (h : WFS f a = true) : sliceable a = true :=
   Lemmas.C12.WF_sliceable f a h
